@@ -12,6 +12,7 @@ import (
 	"time"
 
 	"github.com/kubeshark/base/pkg/api"
+	stg "verif/harness/stage"
 )
 
 type J = map[string]interface{}
@@ -111,6 +112,10 @@ func canonItem(item *api.OutputChannelItem, limit int, stage bool) J {
 	if !stage {
 		return out
 	}
+
+	// the entry's own queries and every macro (C16), through the shared stage pipeline
+	c16 := stg.Run(&api.Extension{Dissector: dissector}, item, false)
+	out["c16"] = c16
 
 	// the later stages, as the worker and hub run them
 	var it api.OutputChannelItem
